@@ -31,6 +31,21 @@ CLAIMED["C11"] = dict(
          "checked natively. Genetic-map distance/interpolation clauses are covered by the bounded native ring.",
     note=TRUST_COMMON + "exp/log laws are trusted instances; scipy interp1d behaviour is outside the contracts (ring only).",
 )
+SOURCE_COMMITS += ["ee6306b2", "0c304bf0"]
+CLAIMED["C03"] = dict(
+    level="proof",
+    technique="deductive, proxy execution: the real matrix-class methods run on opaque symbolic arrays (uninterpreted numpy operators, symbolic shapes); per-operation uniformity/frame/WF obligations discharged by congruence (z3); induction over histories by the class invariant",
+    text="For 11 concrete matrix classes (taxa, variant, trait, taxa-variant, phased, taxa-trait, square-taxa, square-taxa-trait, "
+         "unphased/phased genotype, coancestry) and ~30 structural operations each (axis-specific and axis-generic select, delete, "
+         "insert, adjoin, concat, append, remove, incorp, reorder, lexsort, sort, group, ungroup, copy, deepcopy), in several "
+         "label-presence configurations, every output field is proved equal to the same numpy operator with the same index argument "
+         "applied to the corresponding input field, other axes untouched, operands and pre-existing buffers unmodified, constructor "
+         "checks (WF) passing for all shapes. Random operation histories on id-coded matrices are the bounded native ring. Two genuine "
+         "defects were repaired (fix: commits), two are recorded as known findings with guarded twins still proved.",
+    note=TRUST_COMMON + "numpy structural operators are opaque functions with assumed shape rules (pyvc/oarr.py); the element-level "
+         "position-map lemma per operator (take/delete/insert/concatenate) is assumed from numpy's documentation and differential-tested "
+         "by the ring. DenseBreedingValueMatrix structural operations are handled under C15.",
+)
 for _k in ["C02", "C03", "C04", "C05", "C06", "C07", "C08", "C09", "C10", "C11", "C12", "C13", "C14", "C15", "C16",
            "C17", "C18", "C19", "C20"]:
     NA[_k] = "check not built yet in this session (work in progress; see DESIGN.md §8 for the plan)"
